@@ -191,6 +191,38 @@ func GenRun(rng *rand.Rand, p SParams) *SHistory {
 		return f, l
 	}
 
+	// Close(), possibly with a document waiting at the gate of an observer
+	doShutdown := func() {
+		op := SOp{Kind: "shutdown", R1: rng.Float64() >= p.PSaveFail, R2: rng.Float64() >= p.PSaveFail/2}
+		if open && rng.Intn(2) == 0 {
+			for v := int(first); v <= int(last); v++ {
+				g := vb(uint16(v))
+				if !g.ended && g.inSnap && g.next <= g.snapEnd {
+					op.Gate = &SEv{Kind: "mut", Item: &SItem{Seq: g.next, Cas: casBase + uint64(rng.Intn(30))*1000000000, Cid: 0, Key: []byte("gated"), Rest: restID}}
+					op.GateVb = uint16(v)
+					restID++
+					g.next++
+					break
+				}
+			}
+		}
+		outs := exec(op)
+		down, open = true, false
+		inflight = d.Store.InFlight()
+		for _, o := range outs {
+			if o.Kind == "fail" || o.Kind == "ignored" {
+				failed = true
+			}
+		}
+		if op.Gate != nil && !failed {
+			for _, o := range exec(SOp{Kind: "deliver", Vb: op.GateVb, Ev: op.Gate, Released: true}) {
+				if o.Kind == "consume" {
+					outstanding = append(outstanding, nCtx)
+					nCtx++
+				}
+			}
+		}
+	}
 	for (len(h.Ops) < p.MaxOps || (p.Dcp && !down) || (down && lateLeft > 0)) && !failed {
 		if down {
 			lateLeft--
@@ -198,14 +230,7 @@ func GenRun(rng *rand.Rand, p SParams) *SHistory {
 		// (the model has one save lock; in the code it belongs to the checkpoint object of a session: Close() with a store
 		// call of an earlier session still in flight is a corpus history of C13, not generated here)
 		if p.Dcp && !down && len(h.Ops) >= p.MaxOps && queued == 0 && (!inflight || saveSess == sess) {
-			outs := exec(SOp{Kind: "shutdown", R1: rng.Float64() >= p.PSaveFail, R2: rng.Float64() >= p.PSaveFail/2})
-			down, open = true, false
-			inflight = d.Store.InFlight()
-			for _, o := range outs {
-				if o.Kind == "fail" || o.Kind == "ignored" {
-					failed = true
-				}
-			}
+			doShutdown()
 			continue
 		}
 		if !open && !balancing && !down {
@@ -350,16 +375,7 @@ func GenRun(rng *rand.Rand, p SParams) *SHistory {
 			})
 		}
 		if p.Dcp && !down && (open || balancing) && queued == 0 && (!inflight || saveSess == sess) {
-			add(p.WShutdown, func() {
-				outs := exec(SOp{Kind: "shutdown", R1: rng.Float64() >= p.PSaveFail, R2: rng.Float64() >= p.PSaveFail/2})
-				down, open = true, false
-				inflight = d.Store.InFlight()
-				for _, o := range outs {
-					if o.Kind == "fail" || o.Kind == "ignored" {
-						failed = true
-					}
-				}
-			})
+			add(p.WShutdown, doShutdown)
 		}
 		if down && rng.Intn(6) == 0 {
 			add(0.5, func() { exec(SOp{Kind: "shutdown", R1: true, R2: true}) }) // a second Close()
